@@ -181,6 +181,18 @@ def _set_constructions(f: FunctionInfo, ctx=None):
         if isinstance(up, ast.Call) and isinstance(up.func, ast.Attribute) and up.func.value is node and \
                 up.func.attr in ("difference", "union", "intersection", "symmetric_difference", "issubset", "issuperset", "isdisjoint"):
             return up.func.attr.startswith("is") or order_free_use(up)
+        if isinstance(up, ast.Attribute) and up.value is node and up.attr in (
+                "difference", "union", "intersection", "symmetric_difference", "issubset", "issuperset", "isdisjoint"):
+            call = parent.get(id(up))
+            if isinstance(call, ast.Call) and call.func is up:
+                return up.attr.startswith("is") or order_free_use(call)
+        if isinstance(up, ast.Assign) and len(up.targets) == 1 and isinstance(up.targets[0], ast.Name) and up.value is node \
+                and isinstance(node, (ast.BinOp, ast.Call)):
+            # the result of set algebra bound to a name: judged by how the name is used
+            nm = up.targets[0].id
+            st0 = [x for x in ast.walk(root) if isinstance(x, ast.Name) and x.id == nm and isinstance(x.ctx, ast.Store)]
+            ld0 = [x for x in ast.walk(root) if isinstance(x, ast.Name) and x.id == nm and isinstance(x.ctx, ast.Load)]
+            return len(st0) == 1 and bool(ld0) and all(order_free_use(x) for x in ld0)
         if isinstance(up, ast.Attribute) and up.value is node and up.attr in ("add", "update", "discard", "remove", "clear",
                                                                               "__contains__", "difference_update", "intersection_update"):
             call = parent.get(id(up))
